@@ -472,10 +472,110 @@ func c32ParseHdr(f []string) (net.UDPAddr, string, bool) {
 
 func c32Exec(ops []string) []string {
 	outs := make([]string, 0, len(ops))
+	var rcv *c32Receiver
+	defer func() {
+		if rcv != nil {
+			_ = rcv.s.Shutdown()
+		}
+	}()
 	for _, o := range ops {
-		outs = append(outs, c32One(strings.Fields(o)))
+		f := strings.Fields(o)
+		if len(f) >= 3 && (f[0] == "mjoin" || f[0] == "mupdate" || f[0] == "mleave") {
+			if rcv == nil {
+				var err error
+				if rcv, err = c32NewReceiver(); err != nil {
+					outs = append(outs, "bad-op node: "+err.Error())
+					continue
+				}
+			}
+			outs = append(outs, rcv.life(f))
+			continue
+		}
+		outs = append(outs, c32One(f))
 	}
 	return outs
+}
+
+// c32Receiver: a fresh real node per case whose memberlist event delegate is told about a
+// member's life (join / update / leave / join again) exactly as memberlist would, with the
+// metadata the member's own encodeTags produced; what the node then shows for that member is
+// read back through Members().
+type c32Receiver struct {
+	s     *serf.Serf
+	conf  *serf.Config
+	ltime uint64
+	port  uint16
+	ports map[string]uint16
+}
+
+func c32NewReceiver() (*c32Receiver, error) {
+	var mnet memberlist.MockNetwork
+	conf := serf.DefaultConfig()
+	conf.Init()
+	conf.NodeName = "receiver"
+	conf.LogOutput = io.Discard
+	conf.MemberlistConfig = memberlist.DefaultLANConfig()
+	conf.MemberlistConfig.Transport = mnet.NewTransport("receiver")
+	conf.MemberlistConfig.BindAddr = "127.0.0.1"
+	conf.MemberlistConfig.LogOutput = io.Discard
+	// the defaults (24h) keep failed / left members around, as in production
+	s, err := serf.Create(conf)
+	if err != nil {
+		return nil, err
+	}
+	return &c32Receiver{s: s, conf: conf, ltime: 1000, port: 9000, ports: map[string]uint16{}}, nil
+}
+
+func (r *c32Receiver) node(name string, meta []byte) *memberlist.Node {
+	p, ok := r.ports[name]
+	if !ok {
+		r.port++
+		p = r.port
+		r.ports[name] = p
+	}
+	return &memberlist.Node{Name: name, Addr: net.IPv4(127, 0, 0, 2), Port: p, Meta: meta, PMin: 1, PMax: 5, PCur: 2, DMin: 2, DMax: 5, DCur: 5}
+}
+
+func (r *c32Receiver) show(name string) string {
+	for _, m := range r.s.Members() {
+		if m.Name == name {
+			return m.Status.String() + " " + c32ShowTags(m.Tags)
+		}
+	}
+	return "none"
+}
+
+func (r *c32Receiver) life(f []string) string {
+	nb := unhex(f[1])
+	if nb == nil {
+		return "bad-op"
+	}
+	name := string(nb)
+	ev := r.conf.MemberlistConfig.Events
+	switch {
+	case len(f) == 4 && (f[0] == "mjoin" || f[0] == "mupdate"):
+		p, ok1 := pu(f[2], 8)
+		tags, ok2 := c32ParseTags(f[3])
+		if !ok1 || !ok2 {
+			return "bad-op"
+		}
+		meta := serf.VerifEncodeTags(uint8(p), tags) // what the member's own node puts into its metadata
+		if f[0] == "mjoin" {
+			ev.NotifyJoin(r.node(name, meta))
+		} else {
+			ev.NotifyUpdate(r.node(name, meta))
+		}
+		return r.show(name)
+	case len(f) == 3 && f[0] == "mleave":
+		if f[2] == "t" {
+			r.ltime++
+			raw, _ := serf.VerifEncodeMessage(0, &serf.VerifMsgLeave{LTime: serf.LamportTime(r.ltime), Node: name}, false)
+			r.conf.MemberlistConfig.Delegate.NotifyMsg(raw)
+		}
+		ev.NotifyLeave(r.node(name, nil))
+		return r.show(name)
+	}
+	return "bad-op"
 }
 
 func c32One(f []string) string {
@@ -1009,6 +1109,78 @@ func c32GenCases(rng *rand.Rand, tier string) []Case {
 			Nontrivial: true, Tags: []string{"meta"}})
 		out[len(out)-1].Ops = append(out[len(out)-1].Ops, strings.Replace(out[len(out)-1].Ops[len(out[len(out)-1].Ops)-1], "meta ", "metaeff ", 1))
 	}
+	// a member's life at a receiver: join, updates, fail/leave, join again — with fewer keys, disjoint
+	// keys, the empty set, changed values, nil map, and the role-only protocols
+	nLife := 150
+	if thorough {
+		nLife = 4000
+	}
+	g.big = false
+	for i := 0; i < nLife; i++ {
+		nm := 1 + rng.Intn(2)
+		names := []string{hexs(fmt.Sprintf("m%d", i)), hexb(g.bytesN(1 + rng.Intn(6)))}[:nm]
+		if nm == 2 && names[1] == names[0] {
+			names = names[:1]
+		}
+		keys := []string{"role", "dc", "canary", "k", ""}
+		mk := func(proto int) string {
+			switch rng.Intn(8) {
+			case 0:
+				return "_"
+			case 1:
+				return "n"
+			}
+			var items []string
+			for _, k := range keys {
+				if rng.Intn(2) == 0 {
+					v := []string{"db", "east", "true", "", "x"}[rng.Intn(5)]
+					if rng.Intn(6) == 0 {
+						v = string(g.bytesN(1 + rng.Intn(3)))
+						if v[0] == 0xff && k == "role" {
+							v = "r" + v
+						}
+					}
+					items = append(items, hexs(k)+":"+hexs(v))
+				}
+			}
+			if len(items) == 0 {
+				return "_"
+			}
+			rng.Shuffle(len(items), func(a, b int) { items[a], items[b] = items[b], items[a] })
+			return strings.Join(items, ",")
+		}
+		var ops []string
+		alive := map[string]bool{}
+		known := map[string]bool{}
+		steps := 4 + rng.Intn(8)
+		for j := 0; j < steps; j++ {
+			n := names[rng.Intn(len(names))]
+			proto := []int{5, 5, 4, 3, 2}[rng.Intn(5)]
+			switch {
+			case !known[n] || (!alive[n] && rng.Intn(4) > 0):
+				ops = append(ops, fmt.Sprintf("mjoin %s %d %s", n, proto, mk(proto)))
+				known[n], alive[n] = true, true
+			case alive[n] && rng.Intn(3) == 0:
+				ops = append(ops, fmt.Sprintf("mleave %s %s", n, []string{"t", "f"}[rng.Intn(2)]))
+				alive[n] = false
+			case alive[n]:
+				ops = append(ops, fmt.Sprintf("mupdate %s %d %s", n, proto, mk(proto)))
+			default:
+				ops = append(ops, fmt.Sprintf("mjoin %s %d %s", n, proto, mk(proto)))
+				alive[n] = true
+			}
+		}
+		out = append(out, Case{ID: fmt.Sprintf("life-%d", i), Ops: ops, Nontrivial: true, Tags: []string{"member-life"}})
+	}
+	// the documented shape: three tags, fail, back with one
+	out = append(out, Case{ID: "life-fewer", Ops: []string{
+		"mjoin " + hexs("b") + " 5 " + hexs("role") + ":" + hexs("db") + "," + hexs("dc") + ":" + hexs("east") + "," + hexs("canary") + ":" + hexs("true"),
+		"mleave " + hexs("b") + " f",
+		"mjoin " + hexs("b") + " 5 " + hexs("role") + ":" + hexs("db"),
+		"mleave " + hexs("b") + " t",
+		"mjoin " + hexs("b") + " 5 _",
+		"mupdate " + hexs("b") + " 2 " + hexs("role") + ":" + hexs("web") + "," + hexs("dc") + ":" + hexs("west"),
+	}, Nontrivial: true, Tags: []string{"member-life"}})
 	// relay through the real NotifyMsg
 	for i := 0; i < nRelay; i++ {
 		name := c32DestNames[rng.Intn(len(c32DestNames))]
@@ -1077,7 +1249,7 @@ func init() {
 	register(&Prop{
 		ID: "C32",
 		Rule: "systematic: every numeric field of every message kind at 0,1,127,128,255,256,65535,65536,2^32-1,2^32,2^63-1,2^63,2^64-1 (clamped to the field width), signed fields at every int8/16/32/64 boundary, every string field at lengths 0,1,15,16,31,32,33,255,256,257 (thorough: 65535..65537), containers of 0,1,15,16,17 (thorough: 65535/65536) elements, nil vs empty; " +
-			"random values of all 8 kinds with arbitrary bytes; decode agreement on Go-encoded bodies and 4 mutations each (truncate, marker substitution, bit flip, insert, delete, append, count±1) plus hand-written non-canonical encodings; tags for protocol 2-5 incl. roles starting with 0xFE/0xFF; SetTags on live nodes with encodings within ±6 of 512; relays through the real NotifyMsg to a recording memberlist; " +
+			"random values of all 8 kinds with arbitrary bytes; decode agreement on Go-encoded bodies and 4 mutations each (truncate, marker substitution, bit flip, insert, delete, append, count±1) plus hand-written non-canonical encodings; tags for protocol 2-5 incl. roles starting with 0xFE/0xFF; SetTags on live nodes with encodings within ±6 of 512; relays through the real NotifyMsg to a recording memberlist; member lives at a real receiver node through its memberlist event delegate (join / update / fail or graceful leave / join again with fewer, disjoint, empty, nil, changed tag sets from senders of protocol 2-5, 1-2 members, 4-11 steps), reading Members(); " +
 			"non-trivial = every case (each exercises an encoder/decoder path on a distinct value); distinct = distinct op text",
 		Gen:  c32GenCases,
 		Exec: c32Exec,
